@@ -6,7 +6,11 @@ use crate::session::Stream;
 use crate::util::{AnyTlsError, Result, StringMap};
 use bytes::{Bytes, BytesMut};
 use md5;
+#[cfg(not(anytls_verif))]
 use std::collections::HashMap;
+// H5: fixed-hasher map under the guard so that drain order is reproducible
+#[cfg(anytls_verif)]
+use ::anytls_simnet::det::HashMap;
 use std::sync::Arc;
 use tokio::io::{AsyncRead, AsyncReadExt, AsyncWrite, AsyncWriteExt};
 use tokio::sync::{Notify, RwLock, mpsc};
